@@ -45,7 +45,7 @@ def check(pid, tier, seed, t0, st, replay):
     if st.get('translator', 1) != 0:
         res.tie_broken.append('translator could not regenerate coq/gen/Tables.v: ' + open(B + '/translator.log', errors='replace').read()[-300:])
     obl = check_obligations(['Properties/C19.v'])
-    work = scratch('vocab')
+    work = scratch('vocab', deterministic='%s-%d' % (tier, seed))
     try:
         kinds, kv, env = tables()
         # kitchen-sink family: the fixed program plus generated units, so that every kind occurs
